@@ -6,6 +6,7 @@ import os
 import time
 
 import vlib
+import vseam
 
 PID = "C17"
 MANIFEST = dict(
@@ -19,20 +20,24 @@ MANIFEST = dict(
              "fragment design answers exactly what the contiguous meaning says.  Every such case (string, cut, call, expected "
              "answer) is exported by TLC and replayed into the real functions on separately allocated fragments (answer class, "
              "returned position/length, copied bytes, remaining message compared); the one-fragment cut is the contiguous run of "
-             "the same code.  Seeded long messages (<= 300 bytes, <= 14 fragments) are run through the real code and the recorded "
+             "the same code.  Zero-length fragments have their base in an own block, NULL, an inaccessible page or unrelated "
+             "memory filled with a byte that matters (no operator of the specification looks at it); mpt_message_append is "
+             "run on arrays without buffer / exactly full / shared / roomy with the k-th allocation of the call failing "
+             "(allocation seam): refused and the array content exactly as before, as for the contiguous append.  Seeded long messages (<= 300 bytes, <= 14 fragments) are run through the real code and the recorded "
              "answers are validated by TLC against the same operators.",
         note="Trusted: TLC, drv/message.c (copies bytes, maps return codes to ok/none/refused/missing), bounded model. "
              "What a call answers on a contiguous string is taken from the specification, which was calibrated against the "
-             "one-fragment runs; zero-fragment iovec lists, overflow of ssize_t positions and the C++ wrappers are not covered. "
+             "one-fragment runs; zero-fragment iovec lists, overflow of ssize_t positions and the C++ wrappers are not covered; "
+             "the number of allocations an append needs is modelled for granularity 1 / 4096 of the buffer allocator only. "
              "Reads outside a fragment are observed by ASan on exactly sized fragment allocations, not proved.",
         technique="TLA+ spec + TLC exhaustive check; TLC-generated cases replayed into the C code; TLC trace validation of recorded runs",
         design="5/C17")
 
 CFG = {
     "quick": dict(
-        mc=[("MC_Message.cfg", 8), ("MC_Message_e.cfg", 3), ("MC_Message_c.cfg", 3), ("MC_Message_h.cfg", 2)],
-        gen=[("Gen_Message.cfg", 2), ("Gen_Message_e.cfg", 1), ("Gen_Message_c.cfg", 1), ("Gen_Message_h.cfg", 1)],
-        nmsg=150, maxlen=300, pool=6),
+        mc=[("MC_Message.cfg", 8), ("MC_Message_e.cfg", 3), ("MC_Message_c.cfg", 3), ("MC_Message_h.cfg", 3)],
+        gen=[("Gen_Message.cfg", 4), ("Gen_Message_e.cfg", 2), ("Gen_Message_c.cfg", 2), ("Gen_Message_h.cfg", 1)],
+        nmsg=150, maxlen=300, pool=8),
     "thorough": dict(
         mc=[("MC_Message_t.cfg", 8), ("MC_Message_f.cfg", 4), ("MC_Message_et.cfg", 4), ("MC_Message_ct.cfg", 4),
             ("MC_Message_ht.cfg", 4)],
@@ -42,6 +47,14 @@ CFG = {
 KEYS = ("ret", "val", "out", "content")
 FAST_ASAN = {"ASAN_OPTIONS": vlib.ASAN_ENV + ":symbolize=0"}
 JVM = {"JAVA_TOOL_OPTIONS": "-XX:ParallelGCThreads=2"}
+
+
+def build():
+    """drv/message.c with mpt_message_append, mpt_array_append and the buffer allocator compiled in through the
+    allocation seam (drv/seam.h): the k-th allocation of an append can be failed, buffers can be exactly sized."""
+    return vseam.build_seam_driver("message", ["message.c", "alloc_seam.c"],
+                                   ["mptcore/message/message_append.c", "mptcore/array/array_append.c"],
+                                   libs=("mptcore",), link_libs=True)
 
 
 def match(exp, obs, step=None, rec=None, prev=None):
@@ -57,7 +70,8 @@ def frag_class(beh):
     for st in beh:
         if st["a"] == "init":
             cut = st["arg"]["cut"]
-            return "one-fragment" if len(cut) == 1 else "fragmented"
+            eb = st["arg"].get("eb", "slice")
+            return ("one-fragment" if len(cut) == 1 else "fragmented") + ("" if eb == "slice" else "/" + eb)
         if st["a"] == "qget":
             return "queue"
     return "none"
@@ -211,7 +225,11 @@ def gen_traces(rng, nmsg, maxlen):
             est = ln
         else:
             data = rand_data(rng, maxlen)
-            beh.append({"a": "init", "arg": {"data": data, "cut": rand_cut(rng, len(data), 14)}})
+            cut = rand_cut(rng, len(data), 14)
+            eb = rng.choice(["slice", "null", "guard", "foreign"]) if 0 in cut else "slice"
+            fb = (rng.choice(data) if data and rng.random() < 0.5 else rng.choice([10, 0, 34, 39, 92, 35, 32, 44, 97, 255])) \
+                if eb == "foreign" else 0
+            beh.append({"a": "init", "arg": {"data": data, "cut": cut, "eb": eb, "fb": fb}})
             est = len(data)
         for _ in range(rng.randrange(5, 16)):
             op = rng.choice(["read", "read", "length", "argv", "argv", "argv", "arrmsg", "arrmsg", "memchr", "memrchr",
@@ -241,7 +259,9 @@ def gen_traces(rng, nmsg, maxlen):
                 arg = {"n": rng.choice([-1, -1, 0, 1, total, est, max(total - 1, 0), total + 1, rng.randrange(est + 2)]),
                        "dcut": rand_cut(rng, total, 8)}
             else:
-                arg = {"pre": [rng.randrange(256) for _ in range(rng.choice([0, 0, 1, 5]))]}
+                pre = [rng.randrange(256) for _ in range(rng.choice([0, 0, 1, 5]))]
+                arg = {"pre": pre, "kind": rng.choice(["exact", "exact", "shared", "roomy"] if pre else ["exact", "roomy"]),
+                       "fail": rng.choice([0, 0, 1, 2, 3, rng.randrange(1, 16)])}
             beh.append({"a": op, "arg": arg})
         behs.append(beh)
     return behs
@@ -278,7 +298,7 @@ def trace_job(a):
 def run(tier):
     cfg = CFG[tier]
     ck = vlib.Check(PID, tier)
-    exe = vlib.build_driver("message", ["message.c"])
+    exe = build()
     jobs = []
     for c, w in cfg["mc"]:
         jobs.append((mc_job, (c, w, tier == "thorough" and c == cfg["mc"][0][0])))
@@ -372,7 +392,7 @@ def replay(path):
     if not beh:
         print(json.dumps(det, indent=1)[:4000])
         return 2
-    exe = vlib.build_driver("message", ["message.c"])
+    exe = build()
     recs, err = vlib.run_driver(exe, vlib.to_script([beh]))
     if all("exp" in s for s in beh):
         mms = vlib.compare([beh], recs, match)
